@@ -99,6 +99,11 @@ class AsyncProxy(BaseProxy):
         self.sid = sid
         typ = S.sim_by_id(self.ctx.scn)[sid]["type"]
         self._meta = copy.deepcopy(self.ctx.behaviour.meta(sid, typ))
+        simrec = S.sim_by_id(self.ctx.scn)[sid]
+        if simrec.get("any_inputs"):
+            self._meta["models"]["M"]["any_inputs"] = True
+        if simrec.get("meta"):
+            self._meta = copy.deepcopy(simrec["meta"])
         self.ctx.proxies[sid] = self
         return [3, 0]
 
